@@ -1,6 +1,6 @@
 (* Wire-level dispatch: function id -> decoder -> model function -> encoder.
    The harness reads the `fn_*` table below (single source of the ids).  Glue only. *)
-From SG Require Import Base.Prelude Base.Val Base.NumpyPrims Model.Pairs Model.Groups Model.Estimators Model.Sparse.
+From SG Require Import Base.Prelude Base.Val Base.NumpyPrims Model.Pairs Model.Groups Model.Estimators Model.Sparse Model.Binning.
 
 Definition fn_pairs : Z := 1.
 Definition fn_groups : Z := 2.
@@ -14,6 +14,22 @@ Definition fn_quantile : Z := 9.
 Definition fn_tri_lower : Z := 10.
 Definition fn_sparse_diffs : Z := 11.
 Definition fn_sort : Z := 12.
+Definition fn_resolve_maxlag : Z := 13.
+Definition fn_clip_maxlag : Z := 14.
+Definition fn_even : Z := 15.
+Definition fn_uniform : Z := 16.
+Definition fn_mid_edges : Z := 17.
+Definition fn_auto_edges : Z := 18.
+
+(* maxlag form on the wire: n = None, z1 = 'median', z2 = 'mean', q.. = value *)
+Definition getForm (v : val) : option maxlag_form :=
+  match v with
+  | VNone => Some MNone
+  | VZ 1%Z => Some MMedian
+  | VZ 2%Z => Some MMean
+  | VQ q => Some (MValue q)
+  | _ => None
+  end.
 
 Definition getEntry (v : val) : option (nat * Q) :=
   match v with VL [a; b] => do j <- getN a; do d <- getQ b; Some (j, d) | _ => None end.
@@ -41,6 +57,13 @@ Definition run_fn (f : Z) (a : list val) : option val :=
             Some (ofList (fun e => VL [ofN (fst (fst e)); ofN (snd (fst e)); VQ (snd e)]) (tri_lower m))
   | 11%Z => do m <- getCsr (arg a 0); do v <- getList getQ (arg a 1); Some (ofList ofQ (sparse_diffs m v))
   | 12%Z => do x <- getList getQ (arg a 0); Some (ofList ofQ (sortQ x))
+  | 13%Z => do f <- getForm (arg a 0); do D <- getList getQ (arg a 1); Some (ofOpt ofQ (resolve_maxlag f D))
+  | 14%Z => do m <- getOpt getQ (arg a 0); do D <- getList getQ (arg a 1); Some (ofOpt ofQ (clip_maxlag m D))
+  | 15%Z => do n <- getN (arg a 0); do M <- getQ (arg a 1); Some (ofList ofQ (even n M))
+  | 16%Z => do n <- getN (arg a 0); do D <- getList getQ (arg a 1); do M <- getQ (arg a 2);
+            Some (ofList (ofOpt ofQ) (uniform n D M))
+  | 17%Z => do c <- getList getQ (arg a 0); Some (ofList ofQ (mid_edges c))
+  | 18%Z => do k <- getN (arg a 0); do lo <- getQ (arg a 1); do hi <- getQ (arg a 2); Some (ofList ofQ (auto_edges k lo hi))
   | _ => None
   end.
 
